@@ -83,6 +83,8 @@ Conforms(e, name) ==
     [] name = "harmmean"  -> FaceFieldOf(g, o.harmmean) = HarmonicMean(g, FieldOf(g, cf.phi))
     [] name = "upmean"    -> FaceFieldOf(g, o.upmean) =
                                UpwindMean(g, FieldOf(g, cf.phi), FaceFieldOf(g, cf.u))
+    [] name = "tvd1"   -> FieldOf(g, o.tvd1) =
+                            TvdRHS(g, FaceFieldOf(g, cf.u), FaceFieldOf(g, cf.uup), FieldOf(g, cf.phi), "unit")
     [] name = "Msrc"   -> MatOf(o.Msrc) = LinearSourceRows(g, IntFieldOf(g, cf.beta))
     [] name = "Rsrc"   -> FieldOf(g, o.Rsrc) = ConstantSourceVec(g, IntFieldOf(g, cf.gamma))
 
@@ -185,7 +187,8 @@ Holds(e, name) ==
     [] name = "C17_volume" -> C17_VecScaled(IntFieldOf(g, o.volume), IntFieldOf(g, o.S.volume), ScaleFactor(OutputDim(g.cls, "volume"), cf.L, cf.T, cf.K))
     [] name = "C17_linmean" -> C17_VecScaled(FaceFieldOf(g, o.linmean), FaceFieldOf(g, o.S.linmean), cf.K)
     [] name = "C17_upmean"  -> C17_VecScaled(FaceFieldOf(g, o.upmean), FaceFieldOf(g, o.S.upmean), cf.K)
-    [] name = "C17_tvd"    -> C17_VecScaled(FieldOf(g, o.tvd), FieldOf(g, o.S.tvd), ScaleFactor(OutputDim(g.cls, "tvd"), cf.L, cf.T, cf.K))
+    [] name = "C17_tvd"    -> \A k \in DOMAIN o.tvdnamed :
+         C17_VecScaled(FieldOf(g, o.tvdnamed[k]), FieldOf(g, o.S.tvdnamed[k]), ScaleFactor(OutputDim(g.cls, "tvd"), cf.L, cf.T, cf.K))
     [] name = "C17_grad"   ->
          \A id \in FaceIds(g) :
             FaceFieldOf(g, o.S.grad)[id] =
@@ -195,6 +198,19 @@ Holds(e, name) ==
     [] name = "C17_LinearConv" -> C17_MatLinear(MatOf(o.Mconv), MatOf(o.Lin.Mconv2), MatOf(o.Lin.Mconv12), cf.lam, cf.mu)
     [] name = "C17_LinearUp"   -> C17_MatLinear(MatOf(o.Mupalt), MatOf(o.Lin.Mup2), MatOf(o.Lin.Mup12), cf.lam, cf.mu)
     [] name = "C17_LinearSrc"  -> C17_MatLinear(MatOf(o.Msrc), MatOf(o.Lin.Msrc2), MatOf(o.Lin.Msrc12), cf.lam, cf.mu)
+    [] name = "C05_TvdZero" -> VecZero(g, FieldOf(g, o.tvd0))
+    [] name = "C05_TvdUnit" ->
+         C05_TvdUnit(g, MatOf(o.Mupalt), MatOf(o.Mconv), FieldOf(g, o.tvd1), FieldOf(g, cf.phi))
+    [] name = "C13_TvdFinite" -> \A k \in DOMAIN o.tvdnamed : VecFinite(g, FieldOf(g, o.tvdnamed[k]))
+    [] name = "C13_TvdInterior" -> \A k \in DOMAIN o.tvdnamed : VecInteriorOnly(g, FieldOf(g, o.tvdnamed[k]))
+    [] name = "C13_TvdFormula" ->
+         \A k \in DOMAIN o.tvdnamed :
+            FieldOf(g, o.tvdnamed[k]) =
+               TvdRHS(g, FaceFieldOf(g, cf.u), FaceFieldOf(g, cf.uup), FieldOf(g, cf.phi), k)
+    [] name = "C06_TvdConst" -> \A k \in DOMAIN o.tvdconst : VecZero(g, FieldOf(g, o.tvdconst[k]))
+    [] name = "C01_ClosedTvd" -> \A k \in DOMAIN o.tvdnamed : C01_ClosedVector(g, V, FieldOf(g, o.tvdnamed[k]))
+    [] name = "C01_ClosedTvdMid" ->
+         \A k \in DOMAIN o.tvdnamed : C01_ClosedVector(g, MidVolume(g), FieldOf(g, o.tvdnamed[k]))
     [] name = "C04_DiffInterior" -> InteriorRowsOnly(g, MatOf(o.Mdiff))
     [] name = "C04_ConvInterior" -> InteriorRowsOnly(g, MatOf(o.Mconv))
     [] name = "C04_UpInterior"   -> InteriorRowsOnly(g, MatOf(o.Mup))
